@@ -20,6 +20,7 @@ ASSUMPTIONS = ['socket.send / sendmsg may accept fewer bytes than given and repo
 SHRINK = 'hypothesis'
 SHRINK_EXAMPLES = 400
 TIME_BUDGET = {'quick': 120, 'thorough': 1500}
+FUZZ = {'quick': (2, 6000), 'thorough': (4, 300000)}     # coverage-guided shards: (processes, libFuzzer runs each)
 REQUIRED = {
     'quick': {'hdr_1_3': 20, 'hdr_2_2': 20, 'hdr_3_1': 20, 'hdr_1_1_1_1': 20, 'body_split': 100, 'trunc_in_header': 20,
               'trunc_in_body': 20, 'trunc_body_first': 5, 'trunc_body_last': 5, 'rst': 20, 'multi_message': 100, 'big_payload': 10, 'partial_writes': 2000, 'length_around_64k_multiple': 90, 'end:timeout': 100, 'end:aborted': 100},
